@@ -35,6 +35,7 @@ type Options struct {
 	ScanPages    map[int][][]string // scripted SCAN: db -> pages of keys
 	Vanish       map[string]string  // key -> "dump" | "pttl": the key disappears right before that command
 	FailCommands map[string]string  // lower-case command name -> error text
+	FailKeys     map[string]string  // RESTORE of this key -> error text
 }
 
 type Event struct {
@@ -64,6 +65,8 @@ func New(opts Options) (*Server, error) {
 	return s, nil
 }
 
+func (s *Server) Lock()   { s.mu.Lock() }
+func (s *Server) Unlock() { s.mu.Unlock() }
 func (s *Server) Addr() string { return s.ln.Addr().String() }
 func (s *Server) Close()       { s.ln.Close() }
 
@@ -415,6 +418,9 @@ func (s *Server) exec(st *connState, args [][]byte) string {
 				}
 				replace = true
 			}
+		}
+		if e, ok := s.Opts.FailKeys[string(args[1])]; ok {
+			return "-" + e + "\r\n"
 		}
 		// Redis checks the key first, then the payload
 		if _, ok := d[string(args[1])]; ok && !replace {
